@@ -645,3 +645,15 @@ Proof.
     eapply gen_take_forallb; [|exact G].
     rewrite Forall_forall in IH. intros x Hx r Hr. apply (IH x Hx). exact Hr.
 Qed.
+
+(* everything together for terms that come from the public API *)
+Lemma api_simplify_lemma : forall sigma tbl t r,
+  built t -> covers tbl t = true -> consistent sigma tbl -> simplify tbl t = Some r ->
+  eval sigma r = eval sigma t /\ normal r = true /\ oriented r = true /\ pruned tbl r = true.
+Proof.
+  intros sigma tbl t r B C S H. destruct (built_wf_lemma t B) as [N O].
+  split; [eapply simplify_equiv_lemma; eassumption|].
+  split; [eapply simplify_normal_lemma; eassumption|].
+  split; [eapply simplify_oriented_lemma; eassumption|].
+  eapply simplify_pruned_lemma; eassumption.
+Qed.
